@@ -157,6 +157,8 @@ func (maybeSelf someDef[T]) ToMaybe() MaybeDef[T] {
 		return maybeSelf
 	case someDef[T]:
 		return (ref).(someDef[T])
+	case MaybeDef[T]:
+		return (ref).(MaybeDef[T])
 	}
 }
 
